@@ -454,6 +454,7 @@ def make_semantics2(kind, rules, params=None, shape=None):
             def mk(nm):
                 def action(self, ast, *a, **kw):
                     return act(nm, ast, a, kw)
+                action.__name__ = action.__qualname__ = nm          # as a method written `def <rule>(self, ast, ...)` is
                 return action
             setattr(Sem, nm, mk(nm))
     return Sem(), log
